@@ -53,4 +53,8 @@ class TwoBody(Celestial):
             derivative[jj : jj + half : step] = state[jj + half :: step]
             derivative[jj + half :: step] = -1.0 * Earth.mu / (r_norm**3.0) * r_vector
 
+            # Add thrust acceleration if applicable
+            if self.finite_thrust:
+                derivative[jj + half :: step] += self.finite_thrust(state[jj::step])[:3]
+
         return derivative
